@@ -51,6 +51,23 @@ CLAIMED = {
    "Seeded search over interleavings of producers and the consumer of the real PriorityQueue under the simulator's scheduler (random, PCT, run-to-block, starvation policies), with exactly-once, per-transaction FIFO and porcupine linearizability oracles against a sequential priority-queue specification, plus stall detection for lost wake-ups. Sampling, not enumeration: a clean batch is evidence, not proof.",
    "Trusted: Go toolchain and testing/synctest; the instrumenter and simrt/simsync (mutex/cond simulated, interleavings at synchronisation operations); porcupine v1.3.0.",
    "deterministic simulation: seeded scheduler over real queue code + porcupine linearizability check", "6 (H1), 7 (C17)"),
+}
+
+H4_NOTE = "Trusted: Go toolchain and testing/synctest; the instrumenter and sim libraries; real file system calls; the crash model is the page-cache image at a scheduler step, truncated (power-loss page subsets are out of scope); transactions in this harness are sequential (client concurrency is H3's subject); sampling, not enumeration (within a run the structural truncation offsets of C05 are enumerated up to a budget of 150 damaged files)."
+H4_TECH = "deterministic simulation: generated histories on a real mmap file under the seeded scheduler; "
+
+def h4(level, text, tech):
+    return (level, text + " A clean batch is evidence, not proof.", H4_NOTE, H4_TECH + tech, "6 (H4), 7")
+
+CLAIMED.update({
+ "C04": h4("exploration", "Histories of admin requests, transactions, explicit and ticker persists, think times and clean restarts; before every clean close a full snapshot (schema text, columns, indexes with primary/contains-key flags, foreign key links in both directions, views, info entries, every index's keys and offsets, rows, counts) is taken and must equal the snapshot after reopen; rows must equal the model maintained from accepted operations.", "differential snapshot before close / after reopen + row model"),
+ "C05": h4("fault_enumeration", "1-3 crash images taken at tape-chosen scheduler steps plus the cleanly closed file; each truncated at structural offsets +-1, bytes inside the last state records and shutdown markers and tape-chosen offsets, with absent / zero / garbage tails (<=150 damaged files per run). Open must return an error (or open a clean earlier file to that close's contents; a file without header may be refused by a fatal exit), check and repair must return; if a complete state record lies below the truncation point repair must succeed, the database must open, pass the full check and hold the contents of an admissible history prefix of the newest such record; otherwise repair must fail.", "crash-image truncation enumeration with open / check / repair / reopen oracle"),
+ "C19": h4("exploration", "Every persisted state is recorded when it is published (offset, publication time, admissible range of history prefixes: at least what an explicit Persist/Close had to save, at most what had been started). Stepping with Asof(-1) from the current state must visit exactly these states in reverse order with non-decreasing times not after their publication, each showing the model after an admissible prefix; Asof(t) for tape-chosen times must land on max{i: t_i <= t} or the first state; live and after reopen.", "persisted-state history vs asof stepping and lookup"),
+ "C20": h4("exploration", "At the end of each history: DumpDatabase + LoadDatabase, Compact of a copy, DumpTable + LoadTable; each result must open, pass the full check and have the same tables, live columns, derived columns, indexes, foreign keys, views and rows as the original; worker pools of the tools run under the scheduler with 1-4 workers.", "logical comparison of the database before / after the tools"),
+ "C21": h4("exploration", "After every admin request (valid or invalid, incl. foreign keys to the same table and must-fail requests): refused => physical snapshot unchanged (incl. index flags); succeeded => must-fail rules respected, every table has a key, index columns exist, Fk/FkToHere mutually consistent with correct index numbers, schema and info tables agree, nrows/size match, rows through every index equal the model, schema text re-parses; the links recomputed by linkFkeys after restart must equal the incrementally maintained ones.", "schema invariants + refused-means-unchanged + restart differential"),
+})
+
+CLAIMED.update({
  "C34": ("exploration",
    "Seeded search over interleavings of the real server ticker, the real client expiry task, 1-4 goroutines sharing the client side batching and 0-3 direct server callers, with the simulated clock started at any millisecond, advanced by 1 ms - 30 s between calls and jumped by up to +-1 h. Oracles: all timestamps ever returned are pairwise distinct (as packed values) and each caller's sequence is strictly increasing under the language's comparison.",
    "Trusted: Go toolchain and testing/synctest (fake clock); simsync; one batching client per run, other clients modelled as direct server callers; the client reaches the server through a stub IDbms (the wire protocol is C40's subject).",
@@ -59,7 +76,7 @@ CLAIMED = {
    "Seeded search over interleavings of 2-6 concurrent allocators of the real Stor.Alloc/extend at every atomic operation and the extend lock, with tape-chosen chunk sizes 64-4096 so that chunk boundaries are crossed constantly. Oracles after every allocation and at the end: len==cap==n, ranges pairwise disjoint, no chunk straddle, within Size(), Data(off) aliases the slice, and a unique byte pattern per allocation still intact (memory-level non-overlap). The 'too many retries' panic is the permitted loud failure.",
    "Trusted: Go toolchain and testing/synctest; simatomic/simsync scheduling points (sequentially consistent granularity); heap store instead of mmap.",
    "deterministic simulation: seeded scheduler over real allocator code + overlap/aliasing invariants", "6 (H2), 7 (C18)"),
-}
+})
 
 NOT_YET = {}
 
